@@ -5,6 +5,7 @@
 package main
 
 import (
+	"strconv"
 	"bufio"
 	"bytes"
 	"encoding/base32"
@@ -324,6 +325,8 @@ func main() {
 	execOnly := flag.String("exec", "", "internal: run the op lines of this file against the implementation only, print answers")
 	corpus := flag.String("corpus", "", "directory of corpus .ops files to run first")
 	nFlag := flag.Int("n", 0, "number of generated cases (0 = tier default)")
+	worker := flag.Bool("worker", false, "internal: run as the supervised worker process")
+	progress := flag.String("progress", "", "internal: file to which the worker appends every op line before executing it")
 	flag.Parse()
 
 	registered = otp.ListSuites()
@@ -341,6 +344,15 @@ func main() {
 		}
 		w.Flush()
 		return
+	}
+
+	if !*worker {
+		supervise(*prop, *tier, *seed, *driver, *outPath)
+		return
+	}
+	var progressF *os.File
+	if *progress != "" {
+		progressF, _ = os.OpenFile(*progress, os.O_CREATE|os.O_WRONLY|os.O_TRUNC, 0o644)
 	}
 
 	start := time.Now()
@@ -407,6 +419,9 @@ func main() {
 	}
 	var retained []kept
 	for i, l := range lines {
+		if progressF != nil {
+			progressF.WriteString(l + "\n")
+		}
 		impl[i] = runImpl(l)
 		errTexts[i] = lastErrText
 		// retain returned code strings WITHOUT copying, to re-check them after later calls (C11: a returned code never changes)
@@ -475,6 +490,30 @@ func main() {
 			rep.Mismatches = append(rep.Mismatches, mm)
 		}
 	}
+	// C08: property-level verdict (Spec.judgeRandom in the Lean driver) on what the implementation answered
+	var jl []string
+	var jidx []int
+	for i, l := range lines {
+		if j := judgeLine(l, impl[i]); j != "" {
+			jl = append(jl, j)
+			jidx = append(jidx, i)
+		}
+	}
+	if len(jl) > 0 {
+		verdicts, _, jerr := runDriver(*driver, jl, 16)
+		if jerr != nil {
+			fmt.Fprintln(os.Stderr, "corr:", jerr)
+			os.Exit(2)
+		}
+		rep.SpecDefined += len(jl)
+		for k, v := range verdicts {
+			if v != "ok" {
+				i := jidx[k]
+				rep.Mismatches = append(rep.Mismatches, mismatch{Index: i, Op: lines[i], Impl: impl[i], Model: model[i], Spec: v, Kind: "impl-vs-spec (judgement of the call history: " + v + ")"})
+				rep.FailingInputFound = true
+			}
+		}
+	}
 	for _, k := range retained {
 		if hx([]byte(k.s)) != k.hex {
 			rep.Mismatches = append(rep.Mismatches, mismatch{Index: k.idx, Op: lines[k.idx], Impl: "ok " + hx([]byte(k.s)), Model: "ok " + k.hex, Kind: "retained-string-changed"})
@@ -489,6 +528,19 @@ func main() {
 		rep.Samples = append(rep.Samples, lines[i]+"  =>  impl: "+trunc(impl[i], 80)+" | model: "+trunc(model[i], 80))
 	}
 
+	// mismatches that violate the Spec / the property itself come first (they are the replay), model-only ones after
+	prio := func(m mismatch) int {
+		switch {
+		case strings.Contains(m.Kind, "spec") || strings.HasPrefix(m.Kind, "leak") || strings.Contains(m.Kind, "crash") || m.Kind == "retained-string-changed":
+			return 0
+		case strings.Contains(m.Impl, "panic") || strings.Contains(m.Impl, "timeout") || strings.Contains(m.Impl, "MUTATED-ARG") ||
+			strings.Contains(m.Impl, "true-err") || strings.Contains(m.Impl, "false-nil") || strings.Contains(m.Impl, "STRING-MISMATCH") || strings.Contains(m.Impl, "HISTORY-DEPENDENT"):
+			return 0
+		}
+		return 1
+	}
+	sort.SliceStable(rep.Mismatches, func(a, b int) bool { return prio(rep.Mismatches[a]) < prio(rep.Mismatches[b]) })
+
 	// shrink / classify the first few mismatches
 	self, _ := os.Executable()
 	for i := range rep.Mismatches {
@@ -496,7 +548,7 @@ func main() {
 			break
 		}
 		m := &rep.Mismatches[i]
-		if m.Kind == "retained-string-changed" || strings.HasPrefix(m.Kind, "leak") {
+		if m.Kind == "retained-string-changed" || strings.HasPrefix(m.Kind, "leak") || strings.Contains(m.Kind, "judgement") {
 			continue
 		}
 		shrinkMismatch(self, *driver, m, lines)
@@ -514,6 +566,121 @@ func main() {
 	if len(rep.Mismatches) > 0 {
 		os.Exit(1)
 	}
+}
+
+// supervise re-runs this program as a worker.  An implementation that kills the process (runtime fatal error,
+// os.Exit, stack exhaustion: none of which recover() can catch) would otherwise leave no report at all; the
+// supervisor turns that into a reported failing input: the op that was executing when the worker died.
+func supervise(prop, tier string, seed uint64, driver, outPath string) {
+	self, _ := os.Executable()
+	tmpOut := outPath
+	if tmpOut == "" {
+		f, _ := os.CreateTemp("", "corr-report-*.json")
+		tmpOut = f.Name()
+		f.Close()
+		defer os.Remove(tmpOut)
+	}
+	os.Remove(tmpOut)
+	prog := tmpOut + ".progress"
+	defer os.Remove(prog)
+	args := append([]string{}, os.Args[1:]...)
+	args = append(args, "-worker", "-progress", prog, "-out", tmpOut)
+	cmd := exec.Command(self, args...)
+	var stderr strings.Builder
+	cmd.Stderr = &stderr
+	cmd.Stdout = os.Stdout
+	err := cmd.Run()
+	if data, rerr := os.ReadFile(tmpOut); rerr == nil && json.Valid(data) {
+		if outPath == "" {
+			os.Stdout.Write(data)
+		}
+		if err != nil {
+			os.Exit(1)
+		}
+		return
+	}
+	// the worker died without a report
+	pdata, _ := os.ReadFile(prog)
+	done := readOps(pdata)
+	rep := report{Property: prop, Seed: seed, Tier: tier, OpsByKind: map[string]int{}, ImplOutcomes: map[string]int{}, Mismatches: []mismatch{}, Samples: []string{}}
+	rep.Rule = "worker process died; the op executing at that moment is reported"
+	first := strings.SplitN(strings.TrimSpace(stderr.String()), "\n", 2)[0]
+	if len(done) == 0 {
+		fmt.Fprintln(os.Stderr, "corr: worker failed before the first op:", trunc(stderr.String(), 600))
+		os.Exit(2)
+	}
+	op := done[len(done)-1]
+	mm := mismatch{Index: len(done) - 1, Op: op, Impl: "process-crash: " + trunc(first, 200), Kind: "process-crash (runtime fatal error or exit inside the implementation; recover() cannot catch it)"}
+	if m, sp, derr := runDriver(driver, []string{op}, 1); derr == nil {
+		mm.Model, mm.Spec = m[0], sp[0]
+	}
+	if ia := execFresh(self, []string{op}); len(ia) == 1 {
+		// alone it survives: look for a history that reproduces the crash
+		found := false
+		for k := 1; k <= len(done)-1; k *= 2 {
+			prefix := done[len(done)-1-k : len(done)-1]
+			if ib := execFresh(self, append(append([]string{}, prefix...), op)); len(ib) != k+1 {
+				mm.History = append([]string{}, prefix...)
+				mm.Kind += " (history-dependent: reproduces only after the listed earlier ops)"
+				found = true
+				break
+			}
+		}
+		if !found {
+			mm.History = append([]string{}, done[:len(done)-1]...)
+			mm.Kind += " (history-dependent: reproduced in the run, not by a shorter history)"
+		}
+	}
+	rep.Mismatches = append(rep.Mismatches, mm)
+	rep.FailingInputFound = true
+	rep.Evaluations = len(done)
+	data, _ := json.MarshalIndent(rep, "", " ")
+	if outPath != "" {
+		os.WriteFile(outPath, data, 0o644)
+	} else {
+		os.Stdout.Write(data)
+	}
+	os.Exit(1)
+}
+
+// judgeLine builds the `rndjudge` op for an implementation answer to rnd / rndseq / rndpar ("" if not applicable).
+func judgeLine(op, ans string) string {
+	f := strings.Fields(op)
+	if len(f) < 3 || strings.Contains(ans, "panic") || strings.Contains(ans, "timeout") || strings.Contains(ans, "bad-op") || strings.Contains(ans, "OVERRUN") {
+		return ""
+	}
+	af := strings.Fields(ans)
+	limit := -1
+	var toks []string
+	for _, t := range af {
+		if strings.HasPrefix(t, "consumed=") {
+			limit, _ = strconv.Atoi(strings.TrimPrefix(t, "consumed="))
+		} else {
+			toks = append(toks, t)
+		}
+	}
+	var outs []string
+	stream := f[2]
+	switch f[0] {
+	case "rndseq":
+		as := strings.Split(f[1], ",")
+		if len(toks) != len(as)+1 || toks[0] != "ok" {
+			return ""
+		}
+		for i, a := range as {
+			outs = append(outs, a+":"+toks[i+1])
+		}
+	default:
+		// rnd / rndpar run inside the long-lived process with a per-op source: only the model is compared there
+		return ""
+	}
+	if len(outs) == 0 {
+		return ""
+	}
+	if limit < 0 || limit > len(stream)/2 {
+		limit = len(stream) / 2
+	}
+	return fmt.Sprintf("rndjudge %s %d %s", stream, limit, strings.Join(outs, ","))
 }
 
 func readOps(data []byte) []string {
